@@ -274,6 +274,21 @@ class Grid(col.MutableSequence):
         '''
         Replace the row at index.
         '''
+        if isinstance(index, slice):
+            # As for a list: the rows of the slice are replaced by the rows
+            # the value yields; every one of them has to be a row.
+            if isinstance(value, Grid):
+                value = value._row
+            rows = list(value)
+            for row in rows:
+                if not isinstance(row, dict):
+                    raise TypeError('value must be a dict')
+            for row in rows:
+                for val in row.values():
+                    self._detect_or_validate(val)
+            self._row[index] = rows
+            self.reindex()
+            return
         if not isinstance(value, dict):
             raise TypeError('value must be a dict')
         for val in value.values():
